@@ -111,6 +111,8 @@ impl Drop for EndSentinel {
 pub struct Node {
     pub canary: u64,
     pub id: u8,
+    /// Address of the value once it lives in its box (0 before): tells the object from a stale bitwise copy
+    pub home: Cell<usize>,
     pub fin_script: Cell<u8>,
     pub drop_script: Cell<u8>,
     pub cells: [RefCell<Option<Cc<Node>>>; S],
@@ -127,6 +129,7 @@ impl Node {
         Node {
             canary: CANARY ^ (id as u64),
             id,
+            home: Cell::new(0),
             fin_script: Cell::new(0),
             drop_script: Cell::new(0),
             cells: Default::default(),
@@ -141,6 +144,12 @@ impl Node {
     #[inline]
     fn canary_ok(&self) -> bool {
         (self.id as usize) < MAXOBJ && self.canary == CANARY ^ (self.id as u64)
+    }
+
+    /// The value is where it was sealed (or was never sealed)
+    #[inline]
+    fn at_home(&self) -> bool {
+        self.home.get() == self as *const Node as usize
     }
 }
 
@@ -702,49 +711,42 @@ fn drain_alloc() {
     let c = ctx();
     alloc::drain(|ev| match ev {
         alloc::Event::Freed { ptr, kind, .. } => {
-            let mut m = c.model.borrow_mut();
-            match kind {
-                alloc::Kind::CcBox => {
-                    let mut found = false;
-                    for i in 0..m.objs.len() {
-                        if m.objs[i].boxed && !m.objs[i].freed && m.objs[i].addr == ptr {
-                            found = true;
-                            let live = m.live();
-                            let o = &mut m.objs[i];
-                            o.freed = true;
-                            o.buffered = false;
-                            let ok = o.dropped || o.moved_out || o.cyclic_failed;
-                            let glue = o.glue_done || o.moved_out || o.cyclic_failed;
-                            let pending = o.cyclic_pending;
-                            drop(m);
-                            if live & (1 << i) != 0 {
-                                v!("C01", "P-live", "allocation of reachable object #{} released", i);
-                            }
-                            if !ok && !pending {
-                                v!("C03", "P-once", "allocation of object #{} released although its value was neither dropped nor moved out", i);
-                            } else if !glue && !pending {
-                                v!("C03", "P-once", "allocation of object #{} released while its destructor is still running", i);
-                            }
-                            if pending {
-                                // new_cyclic panic path: handled by the NewCyclic operation
-                            }
-                            break;
+            if kind != alloc::Kind::CcBox {
+                // Side records are judged in post_op (side record lifetime)
+                return;
+            }
+            // (index, was live, value gone, glue finished, new_cyclic pending, moved out)
+            let mut hit: Option<(usize, bool, bool, bool, bool, bool)> = None;
+            {
+                let mut m = c.model.borrow_mut();
+                let live = m.live();
+                for i in 0..m.objs.len() {
+                    if m.objs[i].boxed && !m.objs[i].freed && m.objs[i].addr == ptr {
+                        let o = &mut m.objs[i];
+                        o.freed = true;
+                        o.buffered = false;
+                        hit = Some((i, live & (1 << i) != 0, o.dropped || o.moved_out || o.cyclic_failed, o.glue_done || o.moved_out || o.cyclic_failed, o.cyclic_pending, o.moved_out));
+                        break;
+                    }
+                }
+                if hit.is_none() {
+                    for o in m.objs.iter_mut() {
+                        if o.map_addr == ptr && !o.map_freed {
+                            o.map_freed = true;
                         }
                     }
-                    if !found {
-                        let mut m = c.model.borrow_mut();
-                        for o in m.objs.iter_mut() {
-                            if o.map_addr == ptr && !o.map_freed {
-                                o.map_freed = true;
-                            }
-                        }
-                    }
-                },
-                alloc::Kind::Side => {
-                    // Judged in post_op (side record lifetime)
-                    drop(m);
-                },
-                alloc::Kind::Plain => {},
+                }
+            }
+            if let Some((i, was_live, gone, glue, pending, moved)) = hit {
+                if was_live && !moved {
+                    v!("C01", "P-live", "allocation of reachable object #{} released", i);
+                }
+                // (pending: the new_cyclic panic path is judged by the NewCyclic operation)
+                if !gone && !pending {
+                    v!("C03", "P-once", "allocation of object #{} released although its value was neither dropped nor moved out", i);
+                } else if !glue && !pending {
+                    v!("C03", "P-once", "allocation of object #{} released while its destructor is still running", i);
+                }
             }
         },
         alloc::Event::Tagged { .. } => {},
@@ -838,6 +840,10 @@ fn cb_trace_enter(node: &Node) -> bool {
         v!("C01", "P-live", "trace called on a value with a corrupted canary (freed, uninitialised or foreign memory)");
         return false;
     }
+    if !node.at_home() {
+        v!("C14", "P-cyclic", "trace called on memory that is not the object itself (uninitialised memory or a stale copy of object #{})", node.id);
+        return false;
+    }
     if !budget() {
         return false;
     }
@@ -885,6 +891,10 @@ fn cb_finalize(node: &Node) {
     let Some(c) = try_ctx() else { return };
     if !node.canary_ok() {
         v!("C01", "P-live", "finalize called on a value with a corrupted canary (freed, uninitialised or foreign memory)");
+        return;
+    }
+    if !node.at_home() {
+        v!("C14", "P-cyclic", "finalize called on memory that is not the object itself (uninitialised memory or a stale copy of object #{})", node.id);
         return;
     }
     drain_alloc();
@@ -982,15 +992,34 @@ impl Ctx {
     }
 }
 
+/// Makes the rest of a wrongly started drop glue harmless: overwrites the value with an inert one, without
+/// dropping what was there (it is garbage, already dropped, or still in use).
+fn neutralise(node: &mut Node) {
+    unsafe {
+        std::ptr::write(node as *mut Node, Node::new(0xFF));
+    }
+}
+
 fn cb_drop(node: &mut Node) {
     let Some(c) = try_ctx() else { return };
     if !node.canary_ok() {
         v!("C14", "P-cyclic", "destructor run on a value with a corrupted canary (never constructed, freed or foreign memory)");
-        // Make the rest of the glue as harmless as possible
+        neutralise(node);
         return;
     }
     drain_alloc();
     let id = node.id as usize;
+    {
+        // A boxed object is dropped in place; anything else with this identity is not the object
+        let m = c.model.borrow();
+        let in_box = id < m.objs.len() && m.objs[id].boxed && !m.objs[id].moved_out && !m.objs[id].cyclic_pending;
+        drop(m);
+        if in_box && !node.at_home() {
+            v!("C14", "P-cyclic", "destructor run on memory that is not the object itself (uninitialised memory or a stale copy of object #{})", id);
+            neutralise(node);
+            return;
+        }
+    }
     c.drop_events.set(c.drop_events.get() + 1);
     c.last_was_trace.set(false);
     if !budget() {
@@ -1005,16 +1034,19 @@ fn cb_drop(node: &mut Node) {
         if id >= m.objs.len() || !m.objs[id].constructed || m.objs[id].cyclic_pending {
             drop(m);
             v!("C14", "P-cyclic", "destructor run on object #{} which was never constructed", id);
+            neutralise(node);
             return;
         }
         if m.objs[id].dropped {
             drop(m);
             v!("C03", "P-once", "object #{} dropped twice", id);
+            neutralise(node);
             return;
         }
         if m.objs[id].boxed && m.objs[id].freed && !m.objs[id].moved_out {
             drop(m);
             v!("C03", "P-once", "object #{} dropped after its allocation was released", id);
+            neutralise(node);
             return;
         }
         let o = &m.objs[id];
@@ -1024,11 +1056,13 @@ fn cb_drop(node: &mut Node) {
             if live & (1 << id) != 0 {
                 drop(m);
                 v!("C01", "P-live", "object #{} dropped while reachable from program-held pointers", id);
+                neutralise(node);
                 return;
             }
             if cfg!(feature = "fin") && !o.fin_flag && !o.limbo {
                 drop(m);
                 v!("C05", "P-fin", "object #{} dropped without having been finalized", id);
+                neutralise(node);
                 return;
             }
         }
@@ -1111,6 +1145,7 @@ fn make_node(expect_finalized: Option<bool>) -> Option<(u8, Cc<Node>)> {
     check_auto_collect(before, after, running);
     let addr = hk::box_addr(&cc);
     let blk = alloc::block(addr);
+    cc.home.set(&*cc as *const Node as usize);
     {
         let mut m = c.model.borrow_mut();
         let o = &mut m.objs[id as usize];
